@@ -58,7 +58,10 @@ func (t *ftr) declare(name string, ty types.Type, n ast.Node) {
 	if name == "_" {
 		return
 	}
-	if _, ok := t.byName[name]; ok {
+	if old, ok := t.byName[name]; ok {
+		if it, isInt := intType(ty); (isInt && (old.kind != "int" || old.w != it.w)) || (!isInt && old.kind == "int") {
+			t.fail(n, "variable "+name+" is declared twice with different types")
+		}
 		return
 	}
 	v := svar{name: name}
@@ -86,8 +89,13 @@ func (t *ftr) guards(e ast.Node) []string {
 	var gs []string
 	ast.Inspect(e, func(n ast.Node) bool {
 		if ix, ok := n.(*ast.IndexExpr); ok {
-			if id, ok := ix.X.(*ast.Ident); ok {
-				gs = append(gs, fmt.Sprintf("(%s).toNat < s.%s.length", t.x.expr(ix.Index), id.Name))
+			if sn := t.x.stateName(ix.X); sn != "" {
+				gs = append(gs, fmt.Sprintf("(%s).toNat < s.%s.length", t.x.expr(ix.Index), sn))
+			}
+		}
+		if se, ok := n.(*ast.SliceExpr); ok && se.Low != nil && se.High == nil {
+			if sn := t.x.stateName(se.X); sn != "" {
+				gs = append(gs, fmt.Sprintf("(%s).toNat ≤ s.%s.length", t.x.exprAs(se.Low, ityp{64, true}), sn))
 			}
 		}
 		return true
@@ -123,6 +131,26 @@ func (t *ftr) errExpr(e ast.Expr) string {
 		if v, ok := t.byName[e.Name]; ok && v.kind == "err" {
 			return "s." + e.Name
 		}
+		if strings.HasPrefix(e.Name, "Err") && t.isErr(e) { // any other package-level sentinel
+			return fmt.Sprintf("(Go.Err.other %q)", e.Name)
+		}
+	case *ast.CallExpr:
+		// fmt.Errorf("… %w …", …, err) keeps the class of the wrapped error (errors.Is); without %w it is a new error
+		if sel, ok := e.Fun.(*ast.SelectorExpr); ok && sel.Sel.Name == "Errorf" && len(e.Args) > 0 {
+			if id, ok := sel.X.(*ast.Ident); ok && id.Name == "fmt" {
+				if lit, ok := e.Args[0].(*ast.BasicLit); ok {
+					if strings.Count(lit.Value, "%w") == 1 {
+						for _, a := range e.Args[1:] {
+							if t.isErr(a) {
+								return t.errExpr(a)
+							}
+						}
+					} else if !strings.Contains(lit.Value, "%w") {
+						return "(Go.Err.other \"errorf\")"
+					}
+				}
+			}
+		}
 	case *ast.SelectorExpr:
 		if id, ok := e.X.(*ast.Ident); ok && id.Name == "io" && e.Sel.Name == "ErrUnexpectedEOF" {
 			return "Go.Err.unexpectedEOF"
@@ -152,20 +180,25 @@ func (t *ftr) call(ce *ast.CallExpr) (term string, sig *fsig, back []string, gs 
 		p := sig.params[i]
 		switch p.kind {
 		case "bytes":
-			aid, isId := a.(*ast.Ident)
-			v, known := t.byName[func() string {
-				if isId {
-					return aid.Name
+			if se, isSl := a.(*ast.SliceExpr); isSl && se.Low != nil && se.High == nil && !se.Slice3 {
+				// x[lo:] handed to a callee that only reads it
+				sn := t.x.stateName(se.X)
+				if sn == "" || t.byName[sn].kind != "bytes" || sig.writes[p.name] {
+					t.fail(a, "unsupported []byte slice argument")
+					return "", nil, nil, nil, false
 				}
-				return ""
-			}()]
-			if !isId || !known || v.kind != "bytes" {
+				gs = append(gs, t.guards(a)...)
+				args = append(args, fmt.Sprintf("(s.%s.drop (%s).toNat)", sn, t.x.exprAs(se.Low, ityp{64, true})))
+				continue
+			}
+			sn := t.x.stateName(a)
+			if sn == "" || t.byName[sn].kind != "bytes" {
 				t.fail(a, "unsupported []byte argument")
 				return "", nil, nil, nil, false
 			}
-			args = append(args, "s."+aid.Name)
+			args = append(args, "s."+sn)
 			if sig.writes[p.name] {
-				back = append(back, fmt.Sprintf("%s := c.%s", aid.Name, p.name))
+				back = append(back, fmt.Sprintf("%s := c.%s", sn, p.name))
 			}
 		case "int":
 			gs = append(gs, t.guards(a)...)
@@ -295,6 +328,27 @@ func (t *ftr) assign(lhs []ast.Expr, rhs []ast.Expr, tok token.Token, n ast.Node
 	var gs, ups []string
 	for i := range lhs {
 		gs = append(gs, t.guards(rhs[i])...)
+		if sel, ok := lhs[i].(*ast.SelectorExpr); ok {
+			sn := t.x.stateName(sel)
+			v := t.byName[sn]
+			if sn == "" || v.kind != "int" {
+				return t.fail(sel, "unsupported field assignment")
+			}
+			var val string
+			if tok == token.ASSIGN {
+				val = t.valueAs(rhs[i], *v)
+			} else {
+				op := map[token.Token]token.Token{token.ADD_ASSIGN: token.ADD, token.SUB_ASSIGN: token.SUB}[tok]
+				if op == token.ILLEGAL {
+					return t.fail(n, "unsupported field assignment operator "+tok.String())
+				}
+				be := &ast.BinaryExpr{X: sel, Op: op, Y: rhs[i]}
+				t.p.info.Types[be] = types.TypeAndValue{Type: t.p.info.TypeOf(sel)}
+				val = t.x.expr(be)
+			}
+			ups = append(ups, fmt.Sprintf("%s := %s", sn, val))
+			continue
+		}
 		switch l := lhs[i].(type) {
 		case *ast.Ident:
 			if tok == token.DEFINE {
@@ -306,6 +360,8 @@ func (t *ftr) assign(lhs []ast.Expr, rhs []ast.Expr, tok token.Token, n ast.Node
 			if !ok {
 				return t.fail(l, "assignment to an unknown variable "+l.Name)
 			}
+			lname := l.Name
+			_ = lname
 			var val string
 			switch {
 			case tok == token.ASSIGN || tok == token.DEFINE:
@@ -385,6 +441,9 @@ func (t *ftr) stmt(s ast.Stmt) string {
 		}
 		return "Go.skip"
 	case *ast.ReturnStmt:
+		if len(s.Results) == 0 && len(t.res) == 0 {
+			return "(fun s => .ret () s)"
+		}
 		if len(s.Results) == 1 {
 			if ce, isCall := s.Results[0].(*ast.CallExpr); isCall {
 				if term, sig, back, gs, ok := t.call(ce); ok {
@@ -414,8 +473,9 @@ func (t *ftr) stmt(s ast.Stmt) string {
 		}
 		return "(fun s => " + withGuards(gs, ".ret ("+strings.Join(vals, ", ")+") s") + ")"
 	case *ast.IfStmt:
+		init := ""
 		if s.Init != nil {
-			return t.fail(s, "if with init statement")
+			init = t.stmt(s.Init)
 		}
 		c := t.cond(s.Cond)
 		gs := t.guards(s.Cond)
@@ -423,7 +483,11 @@ func (t *ftr) stmt(s ast.Stmt) string {
 		if s.Else != nil {
 			els = t.stmt(s.Else)
 		}
-		return "(fun s => " + withGuards(gs, fmt.Sprintf("if %s then %s s else %s s", c, t.block(s.Body.List), els)) + ")"
+		ifs := "(fun s => " + withGuards(gs, fmt.Sprintf("if %s then %s s else %s s", c, t.block(s.Body.List), els)) + ")"
+		if init != "" {
+			return fmt.Sprintf("(Go.seq %s %s)", init, ifs)
+		}
+		return ifs
 	case *ast.ForStmt:
 		init, post := "Go.skip", "Go.skip"
 		if s.Init != nil {
@@ -474,14 +538,43 @@ func (t *ftr) block(ss []ast.Stmt) string {
 
 // translateFunc renders one function. Parameters become the initial state; named results start at zero.
 func translateFunc(p *pkgInfo, name string, b *strings.Builder) []string {
-	fd := p.funcDecl(name)
+	var fd *ast.FuncDecl
+	goName := name
+	if i := strings.Index(name, "."); i > 0 {
+		fd = p.methodDecl(name[:i], name[i+1:])
+		name = strings.Replace(name, ".", "_", 1)
+	} else {
+		fd = p.funcDecl(name)
+	}
 	if fd == nil {
-		return []string{"missing function " + name}
+		return []string{"missing function " + goName}
 	}
 	t := &ftr{p: p, fn: name, byName: map[string]*svar{}}
 	t.x = &xlate{p: p, stateVars: t.byName, bytesIndex: true}
 	var params []string
 	var inits []string
+	if fd.Recv != nil && len(fd.Recv.List) == 1 && len(fd.Recv.List[0].Names) == 1 {
+		// the receiver's fields are state variables `recv_field`, parameters of the translated function
+		rn := fd.Recv.List[0].Names[0]
+		t.x.recv = rn.Name
+		rt := p.info.Defs[rn].Type()
+		if pt, ok := rt.(*types.Pointer); ok {
+			rt = pt.Elem()
+		}
+		st, ok := rt.Underlying().(*types.Struct)
+		if !ok {
+			return []string{"receiver of " + goName + " is not a struct"}
+		}
+		for i := 0; i < st.NumFields(); i++ {
+			f := st.Field(i)
+			fname := rn.Name + "_" + f.Name()
+			t.declare(fname, f.Type(), rn)
+			if v, ok := t.byName[fname]; ok {
+				params = append(params, fmt.Sprintf("(%s : %s)", fname, v.lean))
+				inits = append(inits, fmt.Sprintf("%s := %s", fname, fname))
+			}
+		}
+	}
 	for _, f := range fd.Type.Params.List {
 		for _, n := range f.Names {
 			t.declare(n.Name, p.info.Defs[n].Type(), n)
@@ -555,7 +648,7 @@ func translateFunc(p *pkgInfo, name string, b *strings.Builder) []string {
 		return true
 	})
 	translated[name] = sig
-	fmt.Fprintf(b, "/-! ### `%s` (%s) -/\n\n", name, p.fset.Position(fd.Pos()))
+	fmt.Fprintf(b, "/-! ### `%s` (%s) -/\n\n", goName, p.fset.Position(fd.Pos()))
 	fmt.Fprintf(b, "structure %s.St where\n", name)
 	seen := map[string]bool{}
 	for _, n := range inits {
@@ -568,11 +661,16 @@ func translateFunc(p *pkgInfo, name string, b *strings.Builder) []string {
 			fmt.Fprintf(b, "  %s : %s := %s\n", v.name, v.lean, v.zero)
 		}
 	}
+	end := "Go.missingReturn"
+	if len(rts) == 0 { // no results: falling off the end is the return
+		rts = []string{"Unit"}
+		end = "(fun s => .ret () s)"
+	}
 	fmt.Fprintf(b, "\nabbrev %s.R := %s\n\n", name, strings.Join(rts, " × "))
 	for _, l := range t.loops {
 		b.WriteString(l + "\n")
 	}
-	fmt.Fprintf(b, "/-- the body of `%s`, statement by statement -/\ndef %s.body (fuel : Nat) : %s.St → Go.Out %s.St %s.R :=\n  (Go.seq %s\n    Go.missingReturn)\n\n", name, name, name, name, name, body)
+	fmt.Fprintf(b, "/-- the body of `%s`, statement by statement -/\ndef %s.body (fuel : Nat) : %s.St → Go.Out %s.St %s.R :=\n  (Go.seq %s\n    %s)\n\n", name, name, name, name, name, body, end)
 	fmt.Fprintf(b, "def %s (fuel : Nat) %s : Go.Out %s.St %s.R :=\n  %s.body fuel { %s }\n\n", name, strings.Join(params, " "), name, name, name, strings.Join(inits, ", "))
 	return nil
 }
@@ -582,7 +680,9 @@ func writeWireFuncs(p *pkgInfo, outPath string) {
 	b.WriteString("/- REGENERATED on every run by harness/cmd/extract (wirefuncs.go): the bodies of the wire primitives of\n   /repo's encoder.go / decoder.go, translated statement by statement. Do not edit. -/\n")
 	b.WriteString("import Csproto.Model.GoSem\nset_option linter.unusedVariables false\nnamespace Csproto.Generated.WireFuncs\nopen Csproto\n\n")
 	for _, fn := range []string{"EncodeVarint", "DecodeVarint", "DecodeFixed32", "DecodeFixed64",
-		"EncodeTag", "EncodeZigZag32", "EncodeZigZag64", "DecodeZigZag32", "DecodeZigZag64"} {
+		"EncodeTag", "EncodeZigZag32", "EncodeZigZag64", "DecodeZigZag32", "DecodeZigZag64",
+		"Decoder.Offset", "Decoder.Reset", "Decoder.DecodeTag", "Decoder.DecodeUInt64", "Decoder.DecodeInt64", "Decoder.DecodeUInt32",
+		"Decoder.DecodeInt32", "Decoder.DecodeSInt32", "Decoder.DecodeSInt64", "Decoder.DecodeFixed32", "Decoder.DecodeFixed64"} {
 		if errs := translateFunc(p, fn, &b); len(errs) > 0 {
 			fmt.Println("wire primitive", fn, "is outside the translatable fragment (Bridge/WireFuncs.lean no longer applies):")
 			for _, e := range errs {
